@@ -225,6 +225,12 @@ fn c06_int_range_rule() {
         INT_SEQ = [a, b];
         INT_CALLS = 0;
     }
+    // native replay (cfg(test): Kani stubs do not exist there) goes through the real digit lexer
+    #[cfg(test)]
+    let text = format!("{}..{};", a, b);
+    #[cfg(test)]
+    let res = IntRange::lex(&text);
+    #[cfg(not(test))]
     let res = IntRange::lex("1..2;");
     match &res {
         Ok((r, rest)) => {
@@ -255,6 +261,11 @@ fn c06_int_single_rule() {
         INT_SEQ = [a, a];
         INT_CALLS = 0;
     }
+    #[cfg(test)]
+    let text = format!("{};", a);
+    #[cfg(test)]
+    let res = IntRange::lex(&text);
+    #[cfg(not(test))]
     let res = IntRange::lex("1;");
     match &res {
         Ok((r, rest)) => {
@@ -279,6 +290,11 @@ fn c06_index_literal_rule() {
         INT_SEQ = [n, n];
         INT_CALLS = 0;
     }
+    #[cfg(test)]
+    let text = format!("{}]", n);
+    #[cfg(test)]
+    let res = FieldIndex::lex(&text);
+    #[cfg(not(test))]
     let res = FieldIndex::lex("7]");
     match &res {
         Ok((FieldIndex::ArrayIndex(u), rest)) => {
